@@ -4,6 +4,7 @@ package interp
 
 import (
 	"fmt"
+	"os"
 	"sort"
 	"strings"
 	"sync"
@@ -167,6 +168,7 @@ type Engine struct {
 	pcRep    []int       // per pc literal: one of its variables (-1: none)
 	noSlice  bool
 	SlicedOut int
+	in       *interpreter
 }
 
 func newEngine(x *Explorer) (*Engine, error) {
@@ -518,6 +520,9 @@ func (e *Engine) branch(c *Term) bool {
 		e.addPC(c)
 		return true
 	}
+	if debugQ {
+		fmt.Fprintf(os.Stderr, "SOLVER-BRANCH sv=%v size=%d %s\n  at %s\n", c.sv != nil, c.size, truncate(c.String(), 300), e.where())
+	}
 	rT := e.check(c)
 	if rT == Unsat {
 		e.trail = append(e.trail, dec{K: 'b', B: false, Forced: true})
@@ -663,6 +668,27 @@ func (e *Engine) outside(reason string) {
 
 func (e *Engine) note(s string) { e.notes[s]++ }
 
+var debugQ = os.Getenv("GOSYM_DEBUGQ") != ""
+
+func truncate(s string, n int) string {
+	if len(s) > n {
+		return s[:n] + "..."
+	}
+	return s
+}
+
+func (e *Engine) where() string {
+	if e.in == nil {
+		return ""
+	}
+	n := len(e.in.stack)
+	var parts []string
+	for k := n - 1; k >= 0 && k >= n-4; k-- {
+		parts = append(parts, e.in.stack[k].String())
+	}
+	return strings.Join(parts, " < ")
+}
+
 func trailString(tr []dec) string {
 	var sb strings.Builder
 	for _, d := range tr {
@@ -786,6 +812,40 @@ func (e *Engine) assert(c *Term, msg string) {
 		x.Notes["assert-syntactic"]++
 		x.mu.Unlock()
 		return
+	}
+	if c.Op == OpBAnd && len(c.Args) <= 4096 {
+		// decide the conjuncts one by one: each query is sliced to the variables
+		// of its conjunct, which keeps byte-vector equalities cheap
+		var failing *Term
+		allUnsat := true
+		for _, a := range c.Args {
+			if e.implied(a) == 1 {
+				continue
+			}
+			switch e.check(e.st.BNot(a)) {
+			case Unsat:
+				e.addPC(a)
+			case Sat:
+				failing = a
+				allUnsat = false
+			default:
+				allUnsat = false
+			}
+			if failing != nil {
+				break
+			}
+		}
+		if allUnsat {
+			x.mu.Lock()
+			x.Discharged++
+			x.Notes["assert-by-conjuncts"]++
+			x.mu.Unlock()
+			return
+		}
+		if failing != nil {
+			c = failing
+		}
+		// fall through to the generic route for the failing / undecided case
 	}
 	nc := e.st.BNot(c)
 	e.predefine()
